@@ -63,6 +63,10 @@ def _d(o, depth=0):
             if _all_plain(o.values()):
                 return _h(b"Di" + repr(items).encode())
             return _h(b"Di" + b"".join(repr(k).encode() + _d(v, depth + 1) for k, v in items))
+        if o and len(o) <= 64 and all(type(k) is str for k in o) and all(
+            isinstance(v, _PLAIN) or (type(v) in (list, tuple) and _all_plain(v)) for v in o.values()
+        ):
+            return _h(b"Ds" + repr(sorted((k, type(v).__name__, v) for k, v in o.items())).encode())
         parts = sorted(_d(k, depth + 1) + _d(v, depth + 1) for k, v in o.items())
         return _h(b"D" + b"".join(parts))
     if isinstance(o, (set, frozenset)):
@@ -117,3 +121,40 @@ def diff_parts(a, b):
     """Names of the parts that differ between two digests of the same kind."""
     ks = set(a["parts"]) | set(b["parts"])
     return sorted(k for k in ks if a["parts"].get(k) != b["parts"].get(k))
+
+
+class Snapshotter:
+    """Per-process cache: the canonical digest is recomputed only when a fast content fingerprint (sha1 of the
+    pickle of the same fields) changed.  Equal pickle bytes imply equal content, so this is exact; unequal bytes
+    only cost a recomputation."""
+
+    def __init__(self):
+        self._cache = {}
+
+    @staticmethod
+    def _fast(fields):
+        import pickle
+
+        try:
+            return hashlib.sha1(pickle.dumps(fields, protocol=4)).digest()
+        except Exception:
+            return None
+
+    def _get(self, key, fields, full):
+        f = self._fast(fields)
+        hit = self._cache.get(key)
+        if f is not None and hit is not None and hit[0] == f:
+            return hit[1]
+        d = full()
+        self._cache[key] = (f, d)
+        return d
+
+    def gene(self, gene):
+        return self._get(("g", id(gene)), vars(gene), lambda: gene_digest(gene))
+
+    def coverage(self, cov):
+        sam = getattr(cov, "sam", None)
+        fields = [getattr(cov, k, None) for k in COV_FIELDS] + [vars(cov.profile) if getattr(cov, "profile", None) is not None else None]
+        if sam is not None:
+            fields += [getattr(sam, "name", None), getattr(sam, "phases", None), getattr(sam, "is_long_read", None), getattr(sam, "min_cov", None)]
+        return self._get(("c", id(cov)), fields, lambda: coverage_digest(cov))
